@@ -41,6 +41,23 @@ def main(argv: List[str]) -> int:
                               'seed': seed, 'gen': 'RandDocP', 'variant': with_props}
     res = docs.run_items(list(items.values()), rep, 'C15')
     doccheck.judge('C15', rep, res, items, lambda it: True)
+    # render side: properties are shown iff the database's flag is set AT RENDER TIME, whatever it was before, and they
+    # survive the round trip (TraceDbml clauses `content` and `props`)
+    from . import render, c02
+    import copy
+    ms = docs.gen_models(lo + 40000, lo + 40000 + doccheck.budget(120, 2000) - 1, True, False, rep)
+    ritems = {}
+    for seed, dm in ms:
+        for flips in ([], [False], [False, True], [True, False, True, False]):
+            m = copy.deepcopy(dm['model'])
+            if flips:
+                m['allowprops'] = flips[-1]
+            tid += 1
+            ritems[tid] = {'tid': tid, 'route': 'built', 'doc': dm['doc'], 'model': m, 'fseed': None, 'pinned': {}, 'seed': seed,
+                           'flips': flips, 'variant': 'flips %s' % flips}
+    rres = render.run_items(list(ritems.values()), rep, 'C15 render')
+    c02.judge('C15', ['props'], rep, rres, ritems, lambda it: uses_props(it['doc']))
+    rep.notes['render_side_cases'] = len(ritems)
     rep.notes['with_properties'] = sum(1 for it in items.values() if uses_props(it['doc']))
     for tid in list(items)[:2]:
         v, r = res[tid]
